@@ -344,6 +344,9 @@ func Register(name string, f func(*Ctx)) {
 
 // Main runs the selected job; called from TestVerif in each harness package.
 func Main() (ran bool, err error) {
+	if childMain() {
+		return true, nil
+	}
 	c := Start()
 	if c.Job == "" {
 		return false, nil
